@@ -453,7 +453,22 @@ class SrcModel:
         return "enum.Enum" in self.mro(cls.qualname)
 
     def enum_members(self, cls: ClassDef) -> Dict[str, object]:
-        """name -> literal value, in definition order."""
+        """name -> value of the members in definition order; member values that are not literals (assembled from
+        constants, tuples holding classes ...) are evaluated by the abstract interpreter."""
+        literal = self.enum_members_literal(cls)
+        names = [st.targets[0].id for st in cls.node.body if isinstance(st, ast.Assign) and len(st.targets) == 1
+                 and isinstance(st.targets[0], ast.Name) and not st.targets[0].id.startswith("_") and not isinstance(st.value, ast.Lambda)]
+        if all(n in literal for n in names):
+            return literal
+        cache = self.__dict__.setdefault("_enum_member_cache", {})
+        if cls.qualname not in cache:
+            from .fdai import Interp  # local import: the interpreter is built on this module
+
+            cache[cls.qualname] = dict(Interp(self).members(cls))
+        return cache[cls.qualname]
+
+    def enum_members_literal(self, cls: ClassDef) -> Dict[str, object]:
+        """name -> literal value, in definition order (members with non-literal values are left out)."""
         out: Dict[str, object] = {}
         for st in cls.node.body:
             if isinstance(st, ast.Assign) and len(st.targets) == 1 and isinstance(st.targets[0], ast.Name):
@@ -725,6 +740,25 @@ class SrcModel:
                         res = self._lookup_local(fn, a.id)
                         if isinstance(res, FuncDef) and a.id not in fn.params:
                             sites.append(CallSite(caller=fn, node=n, targets=[res], external=None, how="ref"))
+        # dispatch through name tables: `globals()[name]` / `getattr(obj, name)` with names taken from string constants
+        dyn_globals = [n for n in walk_shallow(fn.node) if isinstance(n, ast.Call) and isinstance(n.func, ast.Name) and n.func.id == "globals"]
+        dyn_getattr = [n for n in walk_shallow(fn.node) if isinstance(n, ast.Call) and isinstance(n.func, ast.Name) and n.func.id == "getattr"
+                       and len(n.args) >= 2 and not isinstance(n.args[1], ast.Constant)]
+        if dyn_globals or dyn_getattr:
+            names = {c.value for c in ast.walk(fn.module.tree) if isinstance(c, ast.Constant) and isinstance(c.value, str) and c.value.isidentifier()}
+            if dyn_globals:
+                for nm in sorted(names):
+                    tgt = fn.module.functions.get(nm)
+                    if tgt is not None and tgt is not fn:
+                        sites.append(CallSite(caller=fn, node=dyn_globals[0], targets=[tgt], external=None, how="ref"))
+            for call in dyn_getattr:
+                recv = call.args[0]
+                rcls = fn.cls if isinstance(recv, ast.Name) and recv.id in ("self", "cls") else self._receiver_class(fn, recv)
+                cands = [rcls] if rcls is not None else [c for c in self.classes.values() if c.module is fn.module]
+                for c in cands:
+                    for nm in sorted(names):
+                        for tgt in self.dispatch(c, nm):
+                            sites.append(CallSite(caller=fn, node=call, targets=[tgt], external=None, how="ref"))
         sites.sort(key=lambda s: (s.node.lineno, s.node.col_offset))
         return sites
 
